@@ -8,6 +8,7 @@
 //!   c:<k>:<e>:<v>     CAS, e = `_` (None) | hex | `-`       n / f   Noop / Config entry
 //!   /                 chunk boundary (apply pending chunk)  i:<n>   next entry gets index n
 //!   G:<k>  M:<k>,<k>  S:<p>   get / get_multi / scan_prefix (flush the pending chunk first)
+//!   U:<p>             the private `prefix_successor(p)` of the RocksDB engine (hook), printed as a read `U<hex|_>`
 //!   X:<p>             (C25) scan_prefix(p) with the pending chunk applied *inside* the scan/apply gap:
 //!                     RocksDB: between iteration and the revision read (hook `verif_scan_gap`);
 //!                     File: the scan runs between the memory update and `update_last_applied`
@@ -40,6 +41,7 @@ enum Op {
     Multi(Vec<Vec<u8>>),
     Scan(Vec<u8>),
     GapScan(Vec<u8>),
+    Succ(Vec<u8>),
 }
 
 fn parse(case: &str) -> Option<Vec<Op>> {
@@ -65,6 +67,7 @@ fn parse(case: &str) -> Option<Vec<Op>> {
             ("M", 2) => Op::Multi(if f[1].is_empty() { vec![] } else { f[1].split(',').map(unhex).collect() }),
             ("S", 2) => Op::Scan(unhex(f[1])),
             ("X", 2) => Op::GapScan(unhex(f[1])),
+            ("U", 2) => Op::Succ(unhex(f[1])),
             _ => return None,
         };
         ops.push(op);
@@ -177,6 +180,11 @@ fn run_engine<S: StateMachine>(sm: Arc<S>, kind: Kind, ops: &[Op], universe: &[V
                     Ok(r) => reads.push(show_scan(r.entries, r.revision, kind == Kind::File)),
                     Err(_) => return "scan-error".into(),
                 }
+            }
+            Op::Succ(p) => {
+                // the private `prefix_successor` (hook); does not touch the engine
+                let u = d_engine_server::storage::verif_prefix_successor(p);
+                reads.push(format!("U{}", u.map(|v| hex(&v)).unwrap_or_else(|| "_".into())));
             }
             Op::GapScan(p) => {
                 // the pending chunk is applied "concurrently" with the scan, at the engine's gap
@@ -368,23 +376,44 @@ const KEYS: [&str; 10] = ["61", "62", "6162", "61ff", "ff", "ffff", "61ff00", "6
 const VALS: [&str; 4] = ["78", "79", "-", "7879"];
 const PREFIXES: [&str; 9] = ["61", "62", "61ff", "ff", "ffff", "6162", "-", "63", "61ffff"];
 
-fn gen_cmd(r: &mut Rng, keys: &[&str], vals: &[&str]) -> String {
+/// `shadow` follows the reference semantics so that CAS expectations can be made to match (or just miss)
+/// the current value on purpose.
+fn gen_cmd(r: &mut Rng, keys: &[&str], vals: &[&str], shadow: &mut std::collections::HashMap<String, String>) -> String {
     let k = *r.pick(keys);
     match r.below(10) {
         0..=3 => {
             let ttl = if r.chance(1, 5) { *r.pick(&[100000u64, 0, u64::MAX / 4, 3600]) } else { 0 };
-            format!("p:{}:{}:{}", k, r.pick(vals), ttl)
+            let v = *r.pick(vals);
+            shadow.insert(k.to_string(), v.to_string());
+            format!("p:{}:{}:{}", k, v, ttl)
         }
-        4 | 5 => format!("d:{}", k),
+        4 | 5 => {
+            shadow.remove(k);
+            format!("d:{}", k)
+        }
         6..=8 => {
-            let e = if r.chance(1, 3) { "_".to_string() } else { r.pick(vals).to_string() };
-            format!("c:{}:{}:{}", k, e, r.pick(vals))
+            let cur = shadow.get(k).cloned();
+            let e = match r.below(4) {
+                0 | 1 => cur.clone().unwrap_or_else(|| "_".to_string()), // matches the current state
+                2 => "_".to_string(),
+                _ => r.pick(vals).to_string(),
+            };
+            let v = *r.pick(vals);
+            if cur.clone().unwrap_or_else(|| "_".to_string()) == e {
+                shadow.insert(k.to_string(), v.to_string());
+            }
+            format!("c:{}:{}:{}", k, e, v)
         }
         _ => (if r.chance(1, 2) { "n" } else { "f" }).to_string(),
     }
 }
 
 fn gen_read(r: &mut Rng, keys: &[&str]) -> String {
+    if r.chance(1, 8) {
+        let n = r.below(4);
+        let p: String = (0..n).map(|_| *r.pick(&["ff", "ff", "00", "61", "fe", "7f", "80"])).collect();
+        return format!("U:{}", if p.is_empty() { "-".to_string() } else { p });
+    }
     match r.below(3) {
         0 => format!("G:{}", r.pick(keys)),
         1 => {
@@ -460,15 +489,16 @@ fn generate(r: &mut Rng, n: usize, tier: &str) -> Vec<String> {
         let keys: Vec<&str> = if r.chance(1, 2) { KEYS[..3].to_vec() } else { KEYS.to_vec() };
         let len = r.range(1, 14);
         let mut ops: Vec<String> = vec![];
-        let malformed = i % 11 == 0;
+        let malformed = i % 7 == 0;
         let gap = i % 5 == 1;
+        let mut shadow = std::collections::HashMap::new();
         for _ in 0..len {
             match r.below(12) {
                 0 | 1 => ops.push("/".into()),
                 2 => ops.push(gen_read(r, &keys)),
                 3 if malformed => ops.push(format!("i:{}", r.below(6))),
                 3 if gap => ops.push(format!("X:{}", r.pick(&PREFIXES))),
-                _ => ops.push(gen_cmd(r, &keys, &VALS)),
+                _ => ops.push(gen_cmd(r, &keys, &VALS, &mut shadow)),
             }
         }
         if gap {
